@@ -193,10 +193,15 @@ func onlyBlankLines(ls []sm.PLine) bool {
 }
 
 // placeholderReplaced: a = pre + T + post [+ appended], where b = pre + "?…?" + post, T a non-empty token without blanks.
+// The placeholder of an open range is the FIRST run of question marks of its line (nothing before it - indentation,
+// start time, dash - can contain one); question marks further right belong to the summary and must survive.
 func placeholderReplaced(b, a string, allowAppend bool) bool {
 	for i := 0; i < len(b); i++ {
-		if b[i] != '?' || (i > 0 && b[i-1] == '?') {
+		if b[i] != '?' {
 			continue
+		}
+		if i > 0 && strings.Contains(b[:i], "?") {
+			break
 		}
 		j := i
 		for j < len(b) && b[j] == '?' {
